@@ -3,9 +3,10 @@ import math
 
 from harness import dtwgen
 
-COQ_FILES = ["theories/BandTie.v", "theories/PyDist.v", "theories/PyDistProofs.v", "props/C01.v"]
+COQ_FILES = ["theories/BandTie.v", "theories/PyDist.v", "theories/PyDistProofs.v", "gen/Gen_pydist.v", "theories/PyDistGen.v",
+             "props/C01.v"]
 THEOREMS = [("DVProps.C01", "C01_lower_bound"), ("DVProps.C01", "C01_attained"),
-            ("DVProps.C01", "C01_code_model_is_spec")]
+            ("DVProps.C01", "C01_code_model_is_spec"), ("DVProps.C01", "C01_py_distance_as_written")]
 TRUSTED_BASE = [
     "Coq 8.16.1 kernel (no native_compute)",
     "tools/translate_py.py (band/buffer expressions of dtw.distance regenerated into coq/gen/Gen_dtw.v)",
@@ -13,6 +14,13 @@ TRUSTED_BASE = [
     "correspondence harness harness/props/C01.py; the rolling-buffer loop skeleton of dtw.distance is modelled by hand "
     "(PyDist.v, index arithmetic regenerated) and PROVED equal to the specification (C01_code_model_is_spec); the hand "
     "model is tied to the code by correspondence (oracle command pydist)",
+    "tools/pyfun.py (Python front end of tools/cfun.py): the body of dtw.distance after the dispatch to the C engine "
+    "is regenerated WHOLE (Gen_pydist.v: flat two-row array.array buffer, sc/ec bookkeeping, psi prologue and scans, "
+    "every subscript and assert as a conjunct of `ok`) and PROVED equal to the specification value "
+    "(C01_py_distance_as_written, through the hand model PyDist.v); Python ints over Z, floats over Z + infinity "
+    "(no rounding); the inner-distance callable, result_fn and ed.distance are oracle parameters; DTWSettings "
+    "(adj_* values, window default) is modelled by Dtw.adj_* / eff_window and tied by correspondence; the "
+    "extracted definition is run next to dtw.distance (oracle command pygen)",
     "binary64 arithmetic is exact on the integer-valued input stream; math.sqrt correctly rounded",
 ]
 ASSUMPTIONS = ["theorems are over exact (integer) arithmetic; float rounding on arbitrary doubles is not modelled"]
@@ -41,15 +49,19 @@ def gen_cases(rng, tier):
 def expected(cases, oracle):
     ans = oracle.query([dtwgen.oracle_line("dtw", c) for c in cases])
     ans2 = oracle.query([dtwgen.oracle_line("pydist", c) for c in cases])
+    ans3 = oracle.query([dtwgen.oracle_line("pygen -1", c) for c in cases])
     out = []
-    for c, a, a2 in zip(cases, ans, ans2):
-        if a.startswith("ERR") or a2.startswith("ERR"):
-            out.append({"err": a + a2})
+    for c, a, a2, a3 in zip(cases, ans, ans2, ans3):
+        if a.startswith("ERR") or a2.startswith("ERR") or a3.startswith("ERR"):
+            out.append({"err": a + a2 + a3})
         else:
             v = math.inf if a == "inf" else int(a)
             v2 = math.inf if a2 == "inf" else int(a2)
+            tag, val, okflag = a3.split()
+            v3 = math.inf if val == "inf" else int(val)
             out.append({"internal": v, "value": dtwgen.result_transform(v, c["settings"]["inner_dist"]),
-                        "as_written": dtwgen.result_transform(v2, c["settings"]["inner_dist"])})
+                        "as_written": dtwgen.result_transform(v2, c["settings"]["inner_dist"]),
+                        "regenerated": dtwgen.result_transform(v3, c["settings"]["inner_dist"]), "regen_ok": okflag == "ok"})
     return out
 
 
@@ -131,6 +143,11 @@ def judge(case, got, exp):
     g = got["ok"]
     if exp["as_written"] != exp["value"]:
         return {"kind": "as-written-model-differs-from-spec", "as_written": exp["as_written"], "spec": exp["value"]}
+    if not exp["regen_ok"]:
+        return {"kind": "regenerated-routine-reports-bad-subscript-or-assert", "got": g}
+    if isinstance(g, (int, float)) and float(g) != exp["regenerated"]:
+        return {"kind": "regenerated-routine-differs-from-code", "got": g, "regenerated": exp["regenerated"],
+                "spec": exp["value"]}
     if isinstance(g, (int, float)) and float(g) == exp["value"]:
         return None
     return {"kind": "wrong-value" if g != math.inf else "spurious-inf", "got": g, "expected": exp["value"]}
